@@ -232,30 +232,30 @@ class World:
         c.close()
         return closed
 
-    def down(self, kind, how):
-        """take the upstream of `kind` away"""
-        self.rec({"ev": "fault", "kind": kind, "how": how})
+    def down(self, kind, how, member=None):
+        """take the upstream of `kind` away (for the load balancer: member lb1 unless told otherwise)"""
+        k = member or ("lb1" if kind == "lb" else kind)
+        self.rec({"ev": "fault", "kind": kind, "how": how, "up": k})
         if kind == "direct":
             self.origin_direct.stop()
             return
-        k = "lb1" if kind == "lb" else kind
         p = self.up[k]["proxy"]
         if how == "kill":
             p.kill9()
         elif how == "stall":
             os.kill(p.p.pid, signal.SIGSTOP)
 
-    def back(self, kind, how):
+    def back(self, kind, how, member=None):
+        k = member or ("lb1" if kind == "lb" else kind)
         if kind == "direct":
             self.origin_direct.restart()
         else:
-            k = "lb1" if kind == "lb" else kind
             if how == "stall":
                 os.kill(self.up[k]["proxy"].p.pid, signal.SIGCONT)
             else:
                 self.start_up(k)
         self.up_since[kind] = time.time()
-        self.rec({"ev": "restored", "kind": kind, "how": how})
+        self.rec({"ev": "restored", "kind": kind, "how": how, "up": k})
 
     def until_ok(self, kind, phase, limit, period=0.5, need=2):
         """probe until `need` consecutive successes; every attempt is recorded"""
@@ -315,7 +315,7 @@ class World:
                     held.append(s)
         th = threading.Thread(target=run, daemon=True)
         th.start()
-        self.rec({"ev": "fault", "kind": kind, "how": "hijack-" + mode})
+        self.rec({"ev": "fault", "kind": kind, "how": "hijack-" + mode, "up": k})
         for _ in range(probes):
             (probe_fn or self.probe)(kind, "hijack-" + mode, timeout=2.0)
         stop[0] = True
